@@ -165,6 +165,51 @@ def impl_write(Raw, packets, thr, secret):
     return sock.sends
 
 
+def interleaved_readers(chk, C, Raw, Conn, rng):
+    """Two connections in one process: while connection A is in the middle of a frame that arrived in two pieces, connection B
+    reads a whole frame (here: from inside A's second read, which is what a thread switch at that point amounts to).  Both
+    packets must come out intact - nothing of a frame in progress is shared between reactors."""
+    for comp in (False, True):
+        for na, nb, cut in ((10, 3, 4), (300, 70, 1), (5, 600, 7), (64, 64, 30)):
+            pa = bytes(rng.randrange(256) for _ in range(na))
+            pb = bytes(rng.randrange(256) for _ in range(nb))
+
+            def fr(pid, payload):
+                body = varint(pid) + payload
+                if comp:
+                    body = (varint(len(body)) + zlib.compress(body)) if len(body) >= 64 else b'\x00' + body
+                return varint(len(body)) + body
+            fa, fb = fr(5, pa), fr(6, pb)
+            ra, rb = C.PacketReactor(Conn(757, comp)), C.PacketReactor(Conn(757, comp))
+            for r in (ra, rb):
+                r.clientbound_packets = {5: type('Raw5', (Raw,), {'id': 5}), 6: type('Raw6', (Raw,), {'id': 6})}
+            sb = sim.SegStream([fb])
+            got_b = []
+
+            class Hooked(sim.SegStream):
+                def read(self_, n=-1):
+                    if self_.reads == 2 and not got_b:          # the read that fetches the rest of A's frame
+                        try:
+                            p = rb.read_packet(sb, timeout=0)
+                            got_b.append((p.id, bytes(p.data)))
+                        except Exception as e:
+                            got_b.append(('raised', exn_name(e)))
+                    return sim.SegStream.read(self_, n)
+            cutpos = min(len(fa) - 1, len(varint(len(fa))) + cut)
+            sa = Hooked([fa[:cutpos], fa[cutpos:]])
+            chk.count('interleaved-readers', [comp, na, nb, cut], True)
+            try:
+                p = ra.read_packet(sa, timeout=0)
+                got_a = (p.id, bytes(p.data))
+            except Exception as e:
+                got_a = ('raised', exn_name(e))
+            if got_a != (5, pa) or got_b != [(6, pb)]:
+                chk.violation('interleaved-readers', 'interleaved:%s:%d:%d' % (comp, na, nb), {'case': {'compression': comp, 'frame_a_bytes': len(fa), 'cut': cutpos, 'frame_b_bytes': len(fb)},
+                                                                                                'observed': {'a': repr(got_a)[:120], 'b': repr(got_b)[:120]}},
+                              'connection A was %d bytes into a %d-byte frame when connection B read a frame: A delivered %s, B delivered %s' % (
+                                  cutpos, len(fa), 'its packet' if got_a == (5, pa) else repr(got_a)[:60], 'its packet' if got_b == [(6, pb)] else repr(got_b)[:60]))
+
+
 def run(chk):
     common.standard_proof(chk, 'Properties/C01.v')
     C, Raw, Conn = make_env()
@@ -193,6 +238,7 @@ def run(chk):
                 chk.count('writers', [progs, comp, secret is not None, [d[2] for d in run_.decisions]], run_.preempt >= 1)
                 c12.check_run(chk, run_, 'writers')
     reader_side(chk, C, Raw, Conn, combos, rng, th)
+    interleaved_readers(chk, C, Raw, Conn, rng)
     import c15, c10
     c15.whole_streams(chk, 'connection')
     c10.relogin(chk)          # compression / cipher state of an earlier session never frames the next one
